@@ -109,6 +109,32 @@ pub fn golden_state_case(g: &GoldenState) -> CaseResult {
     }
 }
 
+
+/// The oracle's own anchor: the reference EVM on the same vectors (forks <= Prague; precompile bodies from revm-precompile).
+pub fn golden_reference_case(g: &GoldenState) -> CaseResult {
+    let case = LAST_FILE.with(|l| {
+        let mut l = l.borrow_mut();
+        if l.as_ref().map(|(f, _)| f != &g.file).unwrap_or(true) {
+            *l = Some((g.file.clone(), r::vectors::load_file(Path::new(&g.file))));
+        }
+        l.as_ref().unwrap().1.iter().find(|c| c.name == g.name && c.fork_name == g.fork && c.index == g.index).cloned()
+    });
+    let Some(c) = case else { return Ok(Outcome::trivial()) };
+    let Some(fork) = r::vectors::fork_by_name(&c.fork_name) else { return Ok(Outcome::trivial()) };
+    let id = format!("{} :: {} [{} #{}]", g.file.rsplit("state_tests/").next().unwrap_or(&g.file), g.name, g.fork, g.index);
+    match r::execute(fork, &c.block, &c.pre, &c.tx, &RevmPrecompiles, &mut r::NoTracer) {
+        r::TxOutcome::Rejected(why) => {
+            ensure!(c.expect_exception.is_some(), "C01|reference-vs-vector|rejects", "{id}: the reference EVM rejects ({why}) a transaction the vector executes");
+        }
+        r::TxOutcome::Executed(x) => {
+            ensure!(c.expect_exception.is_none(), "C01|reference-vs-vector|accepts", "{id}: the reference EVM executes a transaction the vector rejects");
+            let root = r::state_root(&x.post);
+            ensure!(root == c.expected_root && r::logs_hash(&x.logs) == c.expected_logs, "C01|reference-vs-vector|root", "{id}: the reference EVM's post-state root / logs hash differ from the vector");
+        }
+    }
+    Ok(Outcome::nontrivial())
+}
+
 pub fn golden_part(ctx: &mut Ctx) {
     let cases = load_all();
     if cases.is_empty() {
@@ -118,8 +144,16 @@ pub fn golden_part(ctx: &mut Ctx) {
     ctx.run_list(
         "golden-vectors",
         "every case of the execution-spec-tests state vectors shipped under /repo/tests (pectra_devnet5 and the EOF suite; forks Frontier..Prague and Osaka): revm's post-state root (reference MPT) and logs hash must equal the vector's; expected rejections must be rejected.  Excluded: files the task emptied (not loadable) and four ext_code_on_*set_code files that encode the superseded devnet-5 EXTCODE* rule",
-        cases,
+        cases.clone(),
         false,
         golden_state_case,
+    );
+    let upto_prague: Vec<GoldenState> = cases.into_iter().filter(|g| r::vectors::fork_by_name(&g.fork).is_some()).collect();
+    ctx.run_list(
+        "reference-anchor",
+        "the independent reference EVM (oracle of the differential parts) on the same vectors for Frontier..Prague: it must reproduce every post-state root and logs hash, so the oracle is anchored in the specification-produced vectors on every run",
+        upto_prague,
+        false,
+        golden_reference_case,
     );
 }
